@@ -74,6 +74,12 @@ class GreedyRealizes(NativeCase):
                        "PUSH %s %s DUP2 PUSH %s %s DUP2 PUSH %s %s DUP2 PUSH %s %s" % (k1, ld, k1, st, k2, st, k3, st),
                        "PUSH %s %s PUSH %s %s DUP3 PUSH %s %s DUP3 PUSH %s %s DUP3 PUSH %s %s ADD" % (k1, ld, k2, ld, k2, st, k3, st, k1, st),
                        "DUP1 PUSH %s %s DUP1 PUSH %s %s PUSH %s %s DUP2 PUSH %s %s" % (k3, st, k2, st, k1, ld, k1, st)]
+        # load, store of constants to the same literal key, load again through the stack, the two loaded values permuted in the final stack,
+        # a last store (seed C04-7: everything scheduled before the load chosen first is dropped, a store with it)
+        for ld, st in (("MLOAD", "MSTORE"), ("SLOAD", "SSTORE")):
+            for perm in ("SWAP3 SWAP1 SWAP2", "SWAP1", "SWAP2", "SWAP2 SWAP1", "SWAP3", "SWAP1 SWAP2", ""):
+                blocks.append(("PUSH 40 %s PUSH 80 PUSH 40 %s DUP2 %s %s %s" % (ld, st, ld, perm, st)).replace("  ", " "))
+                blocks.append(("PUSH 40 %s PUSH 80 PUSH 60 %s PUSH 60 %s %s %s" % (ld, st, ld, perm, st)).replace("  ", " "))
         n = ok_runs = errs = 0
         for b in blocks:
             toks = corpus.tokens(b)
